@@ -760,6 +760,8 @@ class Inliner:
             q = ("%s.%s" % (owner, st.name)) if owner else st.name
             if q in self.known:
                 return True
+            if st.name not in STATS["helpers"]:
+                return True          # never inlined: an interface method (evaluate, set, ...) or an entry point of its own
             return st.name in used
         self.tree.body = [st for st in self.tree.body if keep(st, None)]
         for st in self.tree.body:
